@@ -22,7 +22,7 @@ def order_sites(ctx, py: PyRepo, oa: OrderAnalysis, reach):
     n_reach = 0
     for s in sites:
         short_fn = s.function
-        key = (s.module, short_fn, s.key, s.consumer)
+        key = (s.module, short_fn, s.stable, s.consumer)
         reachable = (s.module, short_fn) in reach
         tag = f'{s.module}.{short_fn}:{s.key}/{s.consumer}'
         where = py.where(s.module, s.node)
@@ -43,7 +43,7 @@ def order_sites(ctx, py: PyRepo, oa: OrderAnalysis, reach):
                f'({s.consumer}) in {s.function}, which is reachable from the serialisation / translation entry points: the output can '
                f'differ between runs on the same input', where, facts={'elements': s.elem, 'consumer': s.consumer})
     ctx.analysed['iteration sites over sets'] = len(sites)
-    stale = [k for k in ORDER_SAFE if not any((s.module, s.function, s.key, s.consumer) == k for s in sites)]
+    stale = [k for k in ORDER_SAFE if not any((s.module, s.function, s.stable, s.consumer) == k for s in sites)]
     if stale:
         ctx.advisory(f'triage entries without a matching site (code changed): {stale}')
 
